@@ -20,6 +20,9 @@ func VerifC17NewCfg(maxHashReq uint64, maxBlockReqSize, maxPendingConn, maxBlock
 		maxBlockReqTasks: maxBlockReqTasks, fetchTimeOut: fetchTimeOut, useFullScanOnly: fullScanOnly}
 }
 
+// VerifC17SetFetchTimeout changes the fetch timeout of a configuration in use.
+func VerifC17SetFetchTimeout(cfg *SyncerConfig, d time.Duration) { cfg.fetchTimeOut = d }
+
 // VerifC17SetTimers sets the package-level scheduler tick and the hash fetcher's default timeout
 // (end-to-end runs use short ones); returns the previous values.
 func VerifC17SetTimers(tick, hashTimeout time.Duration) (time.Duration, time.Duration) {
